@@ -188,6 +188,39 @@ func TestC14(t *testing.T) {
 			rec.Fail("transitions", "", fmt.Sprintf("%d of 16777216 transitions disagree; smallest: %s", bad.Load(), firstMsg), *first)
 		}
 
+		// Structured: data || its own sum (little-endian) || zero bytes ||
+		// more data, written in one piece and in drawn pieces. Data that
+		// carries its own checksum followed by padding is exactly what a FIT
+		// stream looks like, and it is where an implementation that treats
+		// several bytes at a time (table slicing, word-at-a-time loops) can
+		// differ from the byte-wise definition although every single-byte
+		// transition above is right.
+		hx.RapidCheck(t, rec, "embedded-sums", func(rt *rapid.T, fail func(string, string, any)) {
+			for k := 0; k < 50; k++ {
+				n := rapid.IntRange(0, 40).Draw(rt, "bodylen")
+				if rapid.Bool().Draw(rt, "aligned") {
+					n = n / 8 * 8
+				}
+				data := rapid.SliceOfN(rapid.Byte(), n, n).Draw(rt, "body")
+				prefix := rapid.IntRange(0, 2).Draw(rt, "prefixwords") * 8
+				buf := append(make([]byte, 0, 128), rapid.SliceOfN(rapid.Byte(), prefix, prefix).Draw(rt, "prefix")...)
+				buf = append(buf, data...)
+				sum := fitmodel.CRC(buf)
+				buf = append(buf, byte(sum), byte(sum>>8))
+				buf = append(buf, make([]byte, rapid.IntRange(0, 16).Draw(rt, "zeros"))...)
+				buf = append(buf, rapid.SliceOfN(rapid.Byte(), 0, 9).Draw(rt, "tail")...)
+				c := writeCase{Data: hex.EncodeToString(buf), Reset: 0}
+				if rapid.Bool().Draw(rt, "split") {
+					c.Cuts = []int{rapid.IntRange(0, len(buf)).Draw(rt, "cut")}
+				}
+				rec.Eval("embedded-sums", 1)
+				rec.NonTrivial(hx.FP(c.Data))
+				if msg, ok := checkWriteCase(c); !ok {
+					fail("", msg, c)
+				}
+			}
+		})
+
 		// Generated: byte strings x write partitions.
 		hx.RapidCheck(t, rec, "partitions", func(rt *rapid.T, fail func(string, string, any)) {
 			data := rapid.SliceOfN(rapid.Byte(), 0, 5000).Draw(rt, "data")
